@@ -132,8 +132,9 @@ def run(ctx):
         ctx.add_counts(evaluations=len(recs), distinct_nontrivial=len(recs))
     rng = np.random.default_rng([ctx.seed, 12])
     ls_specs, opt_specs = [], []
-    for i in range(ctx.pick(150, 1500)):
-        fam = ["qp4", "qpsoft", "rosenbrock"][i % 3]
+    for i in range(ctx.pick(240, 2400)):
+        # the non-convex family gets half of the runs: only there can a correction pair fail the curvature test
+        fam = ["qp4", "rosenbrock", "qpsoft", "rosenbrock"][i % 4]
         ls_specs.append({"family": fam, "n": int(rng.integers(2, 9)), "pseed": int(rng.integers(1 << 30)), "nobox": True,
                          "cond": float(10 ** rng.uniform(0, 2)), "maxcor": int(rng.integers(1, 9))})
     for i in range(ctx.pick(100, 1000)):
